@@ -30,5 +30,5 @@ Print Assumptions damaged_stream_flags_are_rejected.
 
 (** non-vacuity: a 20-bit burst straddling three bytes *)
 Example burst_example :
-  N.lxor (xval [1;2;3;4;5]) (xval [1;2 + 0xA0;3 + 0x5F;4 + 0x0B;5]) = N.shiftl 0xB5FA 12 + 0 /\ 0xB5FA < 2 ^ 32.
+  N.lxor (xval [1;2;3;4;5]) (xval [1;2 + 0xA0;3 + 0x5F;4 + 0x0B;5]) = N.shiftl 0xB61A 12 /\ 0xB61A < 2 ^ 32.
 Proof. vm_compute. split; reflexivity. Qed.
